@@ -9,6 +9,7 @@ import (
 	"runtime"
 	"sort"
 	"strings"
+	"time"
 )
 
 func main() {
@@ -23,6 +24,13 @@ func main() {
 		cmdCheck(os.Args[2:])
 	case "replay":
 		cmdReplay(os.Args[2:])
+	case "gencopy":
+		b, err := generateCopyHarnesses()
+		if err != nil {
+			fmt.Fprintln(os.Stderr, err)
+			os.Exit(2)
+		}
+		os.Stdout.Write(b)
 	default:
 		fmt.Fprintln(os.Stderr, "unknown command", os.Args[1])
 		os.Exit(2)
@@ -40,6 +48,7 @@ func cmdRun(args []string) {
 	solverName := fs.String("solver", "z3", "z3|z3-new|cvc5")
 	verbose := fs.Bool("v", false, "verbose")
 	doReplay := fs.Bool("replay", false, "replay candidates natively")
+	quiet := fs.Bool("q", false, "print only harnesses with something to report")
 	fs.Parse(args)
 	w, err := loadWorld(nil)
 	if err != nil {
@@ -54,12 +63,30 @@ func cmdRun(args []string) {
 	}
 	defer ex.close()
 	re := regexp.MustCompile(*pat)
+	var hs []harness
 	for _, h := range w.allHarnesses() {
-		if !re.MatchString(h.name) {
-			continue
+		xs, err := ex.expand(h)
+		if err != nil {
+			fmt.Fprintln(os.Stderr, err)
+			os.Exit(2)
 		}
-		res := ex.run(h.fn, h.name)
-		printResult(res, *verbose)
+		hs = append(hs, xs...)
+	}
+	var sel []harness
+	for _, h := range hs {
+		if re.MatchString(h.name) {
+			sel = append(sel, h)
+		}
+	}
+	t0 := time.Now()
+	results := ex.runMany(sel, func(r *harnessResult) {
+		if *quiet && len(r.Failures) == 0 && len(r.Unsupported) == 0 && len(r.EngineErrors) == 0 && len(r.Undis) == 0 && !r.BudgetHit {
+			return
+		}
+		printResult(r, *verbose)
+	})
+	fmt.Fprintf(os.Stderr, "%d harnesses in %.1fs\n", len(results), time.Since(t0).Seconds())
+	for _, res := range results {
 		if *doReplay {
 			for _, f := range res.Failures {
 				ok, out := replayFailure(w, f)
